@@ -254,9 +254,18 @@ def encode_call(call, serial):
          'destination': ':1.7'}
     if iface:
         f['interface'] = iface
+    # two calls in three carry a header field of a code this version does
+    # not know (to be ignored), at varying positions among the others; one
+    # in three has the no-auto-start bit set as well
+    extra = []
+    if serial % 3:
+        nfields = len(f) + (1 if sig else 0)
+        extra = [((serial // 3) % (nfields + 1), 10 + serial % 2,
+                  Var('s', 'future') if serial % 2 else Var('u', 7))]
     return R.encode_message(R.METHOD_CALL, serial, f, sig, body,
-                            flags=0 if er else 1,
-                            little=(serial % 2 == 0))
+                            flags=(0 if er else 1) | (2 if serial % 3 == 1
+                                                      else 0),
+                            little=(serial % 2 == 0), extra_fields=extra)
 
 
 def expected(call, objname_of):
